@@ -72,8 +72,36 @@ def f_state_frame(sess, tier):
              not bad, "other assignments: %s" % bad)
 
 
+def f_autoincrement(sess, tier):
+    """C07: identifiers come from an AUTOINCREMENT integer primary key on the base table."""
+    from kmip.pie import objects
+    M = objects.ManagedObject
+    ta = getattr(M, '__table_args__', None)
+    ok = isinstance(ta, dict) and ta.get('sqlite_autoincrement') is True or \
+        (isinstance(ta, tuple) and any(isinstance(x, dict) and x.get('sqlite_autoincrement') is True for x in ta))
+    _rec(sess, "fact:C07/managed_objects-uses-sqlite-autoincrement", bool(ok), "__table_args__ = %r" % (ta,))
+    col = M.__table__.c.get('uid') if hasattr(M, '__table__') else None
+    cols = [c for c in M.__table__.columns if c.primary_key]
+    ok2 = len(cols) == 1 and 'INTEGER' in str(cols[0].type).upper() and \
+        M.unique_identifier.property.columns[0] is cols[0]
+    _rec(sess, "fact:C07/unique_identifier-is-the-integer-primary-key", ok2,
+         "primary key columns: %s" % [(c.name, str(c.type)) for c in cols])
+    subs = [c for c in (objects.CryptographicObject, objects.Key, objects.SymmetricKey, objects.PublicKey,
+                        objects.PrivateKey, objects.SplitKey, objects.Certificate, objects.X509Certificate,
+                        objects.SecretData, objects.OpaqueObject)]
+    def reaches_base(t, depth=0):
+        if t is M.__table__:
+            return True
+        if depth > 6:
+            return False
+        return any(reaches_base(fk.column.table, depth + 1) for col in t.columns if col.primary_key
+                   for fk in col.foreign_keys)
+    bad = [c.__name__ for c in subs if not reaches_base(c.__table__)]
+    _rec(sess, "fact:C07/every-stored-class-keys-on-the-base-row", not bad, "classes without FK primary key: %s" % bad)
+
+
 def units(names, ctx):
-    table = {"lock": f_lock, "state_frame": f_state_frame}
+    table = {"lock": f_lock, "state_frame": f_state_frame, "autoincrement": f_autoincrement}
     out = []
     for nm in names:
         f = table[nm]
